@@ -70,11 +70,11 @@ func (c *schedConn) snapshot() []byte {
 
 // a sender: a function performing its frame writes, the frames it is expected to produce, and results
 type c15Sender struct {
-	name    string
-	run     func(conn *ws.Conn) error
-	frames  []string // expected frame bytes (hex), program order
-	isClose bool
-	closer  bool // closes the transport instead of writing
+	name     string
+	run      func(conn *ws.Conn) error
+	frames   []string // expected frame bytes (hex), program order
+	isClose  bool
+	closer   bool // closes the transport instead of writing
 	err      error
 	doneFlag int32
 }
